@@ -214,7 +214,11 @@ class G:
     o.keepNumDims = keep
     osh = (sh[:-1] + (units,)) if keep else (int(np.prod(sh[:-1])), units)
     y = self.act('fc', osh)
-    self.op(BO.FULLY_CONNECTED, [x, w, bt], [y], o, S.BuiltinOptions.FullyConnectedOptions)
+    ins = [x, w, bt]
+    if bt == -1 and self.rng.random() < 0.4:
+      ins = [x, w]            # the optional bias omitted altogether (2 operands) instead of marked -1
+      self.classes.add('optional_operand_omitted')
+    self.op(BO.FULLY_CONNECTED, ins, [y], o, S.BuiltinOptions.FullyConnectedOptions)
     return y
 
   def conv(self, x, cout, k=3, stride=1, same=True, bias=True, act=0):
@@ -310,7 +314,11 @@ class G:
     o = S.ReshapeOptionsT()
     o.newShape = [int(d) for d in new]
     y = self.act('reshape', tuple(new))
-    self.op(BO.RESHAPE, [x, s], [y], o, S.BuiltinOptions.ReshapeOptions)
+    ins = [x, s]
+    if self.rng.random() < 0.25:
+      ins = [x]               # legacy / 1-operand form: the target shape only in the options
+      self.classes.add('optional_operand_omitted')
+    self.op(BO.RESHAPE, ins, [y], o, S.BuiltinOptions.ReshapeOptions)
     return y
 
   def unary(self, code, base, x, opts=None, ot=0, positive=False):
